@@ -45,6 +45,8 @@ class Sym:
         v = k.get("v")
         if isinstance(v, dict) and "static" in v:
             return ("static", v["static"])
+        if isinstance(v, dict) and all(not isinstance(x, (dict, list)) for x in v.values()):
+            return ("constdict", tuple(sorted(v.items())))
         if isinstance(v, (dict, list)):
             return ("const", repr(v)[:80])
         if v is None and "def" in k:
@@ -71,8 +73,18 @@ class Sym:
                 if e[0] == "bin" and pr[1] == 0:
                     continue
                 if e[0] == "agg" and pr[1] < len(e[2]):
-                    e = e[2][pr[1]]
+                    el = e[2][pr[1]]
+                    if el[0] == "call" and not el[2]:
+                        # a fresh object created by a nullary call (Vec::new(), Default::default()): keep the field identity
+                        e = ("field", ("fresh", e[1].rsplit("::", 1)[-1]), pr[2])
+                        continue
+                    e = el
                     continue
+                if e[0] == "constdict":
+                    d = dict(e[1])
+                    if pr[2] in d:
+                        e = ("const", d[pr[2]])
+                        continue
                 if e[0] == "call" and e[1] in ("Try::ok", ) and pr[1] == 0:
                     continue
                 e = ("field", e, pr[2])
@@ -638,6 +650,11 @@ class Sym:
     def call_expr(self, site, depth=0, subst=None):
         callee = site.get("callee") or "indirect"
         args = [self.operand(a, depth, subst) for a in site["args"]]
+        if "SketchSlice::<'_>::read_" in callee:
+            # impure: every read site is a distinct value
+            pos = getattr(self, "_pos", None)
+            tag = "%s#%s" % (self.fn.id.rsplit("::", 1)[-1], pos[0] if pos else "?")
+            return ("call", "%s@%s" % (callee.rsplit("::", 1)[-1], tag), ())
         if callee in TRANSPARENT_CALLS or callee.endswith("::clone") or (callee.endswith("::from") and len(args) == 1 and callee.startswith(("std::convert::", "<"))):
             if args:
                 a = args[0]
@@ -720,6 +737,67 @@ class Sym:
             if self.edge_dominates(d, otherwise, b) and otherwise not in targets:
                 out.append((cond, ("ne", tuple(v for v, _ in arms)), d))
         return out
+
+    def path_conditions(self, b, cap=3000):
+        """every acyclic path from the entry to block b as a list of (cond_expr, ('eq', v) | ('ne', vals)) decisions;
+        None when there are more than `cap` paths"""
+        fn = self.fn
+        # blocks from which b is reachable
+        can = set()
+        st = [b]
+        while st:
+            x = st.pop()
+            if x in can:
+                continue
+            can.add(x)
+            st.extend(p for p in fn.preds(x) if not fn.blocks[p].cleanup)
+        paths = []
+        cond_cache = {}
+        # blocks that can reach a normal return: a branch whose other arms only panic is an assumption, not a decision
+        live = set()
+        stx = [x.idx for x in fn.blocks if x.term[0] == "return" and not x.cleanup]
+        while stx:
+            x = stx.pop()
+            if x in live:
+                continue
+            live.add(x)
+            stx.extend(p for p in fn.preds(x) if not fn.blocks[p].cleanup)
+
+        def cond_of(blk):
+            if blk not in cond_cache:
+                saved = getattr(self, "_pos", None)
+                self._pos = (blk, "t")
+                cond_cache[blk] = self.operand(fn.blocks[blk].term[1])
+                self._pos = saved
+            return cond_cache[blk]
+
+        def dfs(x, seen, decs):
+            if len(paths) > cap:
+                return False
+            if x == b:
+                paths.append(tuple(decs))
+                return True
+            t = fn.blocks[x].term
+            for sx in fn.succs(x):
+                if sx in seen or sx not in can:
+                    continue
+                d = decs
+                if t[0] == "switch" and sum(1 for y in fn.succs(x) if y in live) > 1:
+                    vals = [v for v, tgt in t[2] if tgt == sx]
+                    if sx == t[3] and not vals:
+                        tv = ("ne", tuple(v for v, _ in t[2]))
+                    elif len(vals) == 1 and sx != t[3]:
+                        tv = ("eq", vals[0])
+                    else:
+                        tv = None
+                    if tv is not None:
+                        d = decs + [(cond_of(x), tv)]
+                if not dfs(sx, seen | {sx}, d):
+                    return False
+            return True
+        if not dfs(0, {0}, []):
+            return None
+        return paths
 
     def cmp_facts_at(self, b):
         """normalised comparison facts holding at block b: list of (op, lhs_expr, rhs_expr) with op in Lt Le Gt Ge Eq Ne,
@@ -903,6 +981,8 @@ def show(e, depth=0):
         return "discr(%s)" % show(e[1], depth + 1)
     if k == "variant":
         return "(%s as %s)" % (show(e[1], depth + 1), e[2])
+    if k == "fresh":
+        return "new:" + e[1]
     if k == "select":
         return "(if %s then %s else %s)" % (show(e[1], depth + 1), show(e[2], depth + 1), show(e[3], depth + 1))
     return k
